@@ -127,6 +127,34 @@ Definition by_key (g : graph) : graph := sort_by entry_lt g.
 Definition gobs_ok (sh : N -> list name -> list name) (g' : graph) (o : gobs) : bool :=
   leqb entry_eqb (by_key g') (go_g o) && N.eqb (vclass (check_dag sh g')) (go_v o).
 
+(** A call sequence on ONE Map object: [Map.Reverse] mirrors the layer
+    numbers the Map holds and swaps its orientation, [LayoutMap] lays out the
+    current orientation starting from the layer numbers the Map holds and
+    leaves the pushed ones behind. *)
+Inductive sop :=
+| SRev
+| SLay (xy : list (name * (nat * Z))) (w : nat) (h : Z).
+
+Definition xs_of (v : view) (ks : list name) : lays :=
+  map (fun k => (k, fst (aget (0, 0%Z) (v_nodes v) k))) ks.
+
+Definition view_eqb (v : view) (xy : list (name * (nat * Z))) (w : nat) (h : Z) : bool :=
+  Nat.eqb (v_width v) w && Z.eqb (v_height v) h &&
+  Nat.eqb (length (v_nodes v)) (length xy) &&
+  forallb (fun e => let p := aget (0, 0%Z) (v_nodes v) (fst e) in
+                    Nat.eqb (fst p) (fst (snd e)) && Z.eqb (snd p) (snd (snd e))) xy.
+
+Fixpoint run_seq (P : lparams) (m mr : dmap) (flip : bool) (L : lays) (ops : list sop) : bool :=
+  match ops with
+  | [] => true
+  | SRev :: r => run_seq P m mr (negb flip) (mirror_lays (m_nlayer m) L) r
+  | SLay xy w h :: r =>
+      match layout_from P (if flip then mr else m) L with
+      | VwOk v => view_eqb v xy w h && run_seq P m mr flip (xs_of v (keys (m_g m))) r
+      | _ => false
+      end
+  end.
+
 Record opsobs := mkO {
   oo_rm : name; oo_rm_obs : gobs;
   oo_sub : list name; oo_sub_obs : gobs;
@@ -139,6 +167,8 @@ Record opsobs := mkO {
   oo_clo_panic : bool;
   oo_clo_nodes : list nobs;             (* x, y, view lists unused *)
   oo_clo_n : nat * nat * nat;           (* Nedge, Ncrit, Nlayer *)
+  oo_seq_rev : bool;                    (* the call sequence starts with RevLayout (else NewMap) *)
+  oo_seq : list sop;                    (* then: Map.Reverse / LayoutMap with the view it returned *)
 }.
 
 Definition sets_eqb (a b : nobs) : bool :=
@@ -174,6 +204,19 @@ Definition check_ops (sh : N -> list name -> list name) (g : graph) (oo : opsobs
           (let '(e, c, l) := oo_clo_n oo in
            Nat.eqb (nedge (m_g m')) e && Nat.eqb (ncrit (m_g m') (m_ao m')) c && Nat.eqb (m_nlayer m') l)
       | Some (MErr _) => false
+      end &&
+      (* the call sequence on one Map object *)
+      match oo_seq oo, new_map sh (rev_graph sh g) with
+      | [], _ => true
+      | ops, MOk mr =>
+          if oo_seq_rev oo then
+            match layout_from gen_params mr (m_lay0 mr) with
+            | VwOk v => run_seq gen_params m mr false
+                          (mirror_lays (m_nlayer m) (xs_of v (keys g))) ops
+            | _ => false
+            end
+          else run_seq gen_params m mr false (m_lay0 m) ops
+      | _, MErr _ => false
       end
   | MErr _ => true
   end.
